@@ -103,7 +103,7 @@ def pullLoop (devPath : Bytes) (cb : CbMode) (total : Nat) (t : Txn) : Nat → F
 
 def pullInner (devPath : Bytes) (cb : CbMode) (t : Txn) (fi : FsInfo) : M Unit := do
   let total ← if cb ≠ CbMode.none then do
-      match (← devStat devPath none Generated.DEFAULT_READ_TIMEOUT_S_TICKS) with
+      match (← devStat devPath t.tt t.rt) with
       | .stat _ size _ => pure size
       | _ => pure 0
     else pure 0
